@@ -167,6 +167,17 @@ def part_c(item):
     if sorted(g.name for g in tf.groups()) != sorted(set(names)):
         res['violations'].append({'case': {'part': 'c', 'which': which}, 'expected': '%d groups' % len(set(names)),
                                   'observed': '%d groups' % len(tf.groups()), 'signature': {'kind': 'group-set', 'which': which}})
+    # every group lists exactly its own channels, in order
+    by_group = {}
+    for g, c, _s in triples:
+        by_group.setdefault(g, []).append(c)
+    for g, chans in by_group.items():
+        res['counters']['cases'] += 1
+        rr = H.guarded(lambda: [c.name for c in tf[g].channels()])
+        if rr[0] != 'ok' or rr[1] != chans:
+            if len(res['violations']) < 10:
+                res['violations'].append({'case': {'part': 'c', 'which': which, 'names': [g]}, 'expected': chans, 'observed': repr(rr)[:300],
+                                          'signature': {'kind': 'group-members', 'which': which}})
     for g, c, _s in triples:
         res['counters']['cases'] += 1
         rr = H.guarded(lambda: (int(tf[g][c][0]), tf[g][c].name, tf[g][c].group_name, tf[g][c].path))
